@@ -49,7 +49,12 @@ constexpr auto exp_cf(T const x) noexcept -> T
 template <typename T>
 constexpr auto exp_split(T const x) noexcept -> T
 {
-    return static_cast<T>(pow_integral(etl::numbers::e, find_whole(x)) * exp_cf(find_fraction(x)));
+    // e^n is built from two halves so that neither overflows / underflows although the result is representable
+    // (e^710 is infinite as a double while exp(709.6) is finite; 1 / e^710 is 0 while exp(-709.6) is a subnormal)
+    return static_cast<T>(
+        pow_integral(etl::numbers::e, find_whole(x) / 2)
+        * (pow_integral(etl::numbers::e, find_whole(x) - find_whole(x) / 2) * exp_cf(find_fraction(x)))
+    );
 }
 
 template <typename T>
